@@ -63,6 +63,8 @@ pub struct Endpoint {
     pub received: usize,
     pub recv_marks: Vec<(u64, usize)>,
     pub send_window_block: bool,
+    /// an async owner got a short or refused send and waits for a writable edge
+    pub want_write_wake: bool,
     pub epfd: i32,
     pub ep_event: Option<libc::epoll_event>,
     pub name: &'static str,
@@ -92,6 +94,8 @@ pub struct Net {
     pub short_sends: bool,
     pub rand_state: u64,
     pub exit_seen: bool,
+    /// duplicates of closed simulated descriptors, closed when the run ends
+    pub keep_open: Vec<i32>,
 }
 
 struct Shared {
@@ -349,6 +353,9 @@ fn do_send(fd: i32, buf: *const u8, len: usize) -> isize {
                 });
             }
         }
+        if n < len && net.eps[i].nonblocking {
+            net.eps[i].want_write_wake = true;
+        }
         let slice = unsafe { std::slice::from_raw_parts(buf, n) };
         net.eps[peer].inflight.extend(slice.iter().cloned());
         net.eps[i].sent.extend_from_slice(slice);
@@ -417,6 +424,8 @@ pub unsafe extern "C" fn shutdown(fd: i32, how: i32) -> i32 {
 #[no_mangle]
 pub unsafe extern "C" fn close(fd: i32) -> i32 {
     if is_sim(fd) {
+        // keep the real socket alive (through a duplicate) until the run ends: a real hang-up would
+        // reach the peer's event loop before the simulated end of stream does
         mark_closed(fd, false);
         SIM_FDS[fd as usize].store(false, Ordering::Relaxed);
     }
@@ -623,6 +632,7 @@ pub fn begin(env: &EnvRef, seed: u64) {
         short_sends: true,
         rand_state: seed ^ 0x5DEECE66D,
         exit_seen: false,
+        keep_open: Vec::new(),
     });
     ACTIVE.store(true, Ordering::SeqCst);
 }
@@ -644,10 +654,13 @@ pub fn connection(port: Option<u16>) -> Conn {
     let net = g.as_mut().expect("simnet not active");
     let a = net.eps.len();
     let b = a + 1;
+    // duplicates owned by the simulator: writing to poke_fd makes the endpoint's descriptor readable,
+    // and they keep both ends of the real socket open when a node closes its descriptor
+    let pokes = [unsafe { libc::dup(fds[1]) }, unsafe { libc::dup(fds[0]) }];
     for (k, fd) in fds.iter().enumerate() {
         net.eps.push(Endpoint {
             fd: *fd,
-            poke_fd: -1,
+            poke_fd: pokes[k],
             peer: if k == 0 { b } else { a },
             owner: -1,
             rx: VecDeque::new(),
@@ -666,6 +679,7 @@ pub fn connection(port: Option<u16>) -> Conn {
             received: 0,
             recv_marks: Vec::new(),
             send_window_block: false,
+            want_write_wake: false,
             epfd: -1,
             ep_event: None,
             name: if k == 0 { "acceptor" } else { "requestor" },
@@ -739,8 +753,8 @@ fn poke(net: &mut Net, ep: usize) {
     // old poke bytes, write a fresh one through the other end of the real
     // socketpair (readable edge) and re-arm the epoll registration (writable edge).
     let fd = net.eps[ep].fd;
-    let peer_fd = net.eps[net.eps[ep].peer].fd;
-    if net.eps[ep].closed || net.eps[ep].epfd < 0 {
+    let peer_fd = net.eps[ep].poke_fd;
+    if net.eps[ep].closed || net.eps[ep].epfd < 0 || peer_fd < 0 {
         return;
     }
     let mut scratch = [0u8; 256];
@@ -793,7 +807,7 @@ pub fn run(max_steps: u64) -> RunReport {
                 NodeState::Ready => true,
                 NodeState::BlockedRead(e) => !net.eps[e].rx.is_empty() || net.eps[e].rx_eof || net.eps[e].reset || net.eps[e].fire_timeout,
                 NodeState::BlockedWrite(e) => !net.eps[e].send_window_block || net.eps[e].reset,
-                NodeState::Parked => net.eps.iter().any(|e| e.owner == i as i32 && !e.closed && (!e.rx.is_empty() || e.rx_eof || e.reset)),
+                NodeState::Parked => net.eps.iter().any(|e| e.owner == i as i32 && !e.closed && (!e.rx.is_empty() || e.rx_eof || e.reset || e.want_write_wake)),
                 NodeState::Finished | NodeState::Exited(_) => false,
             };
             if runnable {
@@ -888,6 +902,7 @@ pub fn run(max_steps: u64) -> RunReport {
                 if net.nodes[i].state == NodeState::Parked {
                     for e in 0..net.eps.len() {
                         if net.eps[e].owner == i as i32 {
+                            net.eps[e].want_write_wake = false;
                             poke(net, e);
                         }
                     }
@@ -987,6 +1002,14 @@ pub fn end() -> EndState {
     for e in &net.eps {
         if (e.fd as usize) < MAX_FD && SIM_FDS[e.fd as usize].swap(false, Ordering::SeqCst) {
             unsafe { real_close()(e.fd) };
+        }
+    }
+    for fd in &net.keep_open {
+        unsafe { real_close()(*fd) };
+    }
+    for e in &net.eps {
+        if e.poke_fd >= 0 {
+            unsafe { real_close()(e.poke_fd) };
         }
     }
     shared().cv.notify_all();
